@@ -121,6 +121,24 @@ def bc_search_cases(draw):
             "nseed": draw(st.integers(0, 5)), "profile": "bc-" + fam}
 
 
+@st.composite
+def deep_search_cases(draw):
+    """The recursive search algorithms with >= 4 bins at sizes where their nested levels are exercised (they pass bins-arrays between
+    recursion levels, so sums and contents can only drift apart there)."""
+    alg = draw(st.sampled_from(["snp", "snp", "rnp", "rnp", "ckk"]))
+    k = draw(st.sampled_from([4, 4, 5]))
+    n = {4: 9, 5: 8}[k] - draw(st.sampled_from([0, 0, 1, 2]))
+    hi = draw(st.sampled_from([12, 40, 200]))
+    values = S.splitmix(draw(st.integers(0, 2 ** 40)), n, 1, hi)
+    return {"alg": alg, "values": values, "numbins": k, "pres": draw(st.sampled_from(["list", "dict-str"])), "nseed": draw(st.integers(0, 5)),
+            "profile": "deep-search"}
+
+
+def valid_deep(case):
+    return (case.get("alg") in ("snp", "rnp", "ckk") and case.get("numbins") in (2, 3, 4, 5) and isinstance(case.get("values"), list)
+            and 1 <= len(case["values"]) <= 10 and all(isinstance(v, int) and v >= 0 for v in case["values"]))
+
+
 def valid(case):
     alg = case.get("alg")
     if alg in sut.PARTITIONERS:
@@ -141,6 +159,8 @@ def legs(tier):
             "equal what is computed from the PartitionAndSumsTuple answer (Sums as a multiset); non-trivial = >= 2 non-empty "
             "bins; half of the cases use an algorithm that swaps or bypasses the caller's bins-manager",
             strategy=random_cases(), n_quick=4000, n_thorough=80000, valid=valid, floor=0.4),
+        Leg("deep-search", evaluate, "hypothesis: snp / rnp / ckk with 4-5 bins and 6-9 evenly spread items (their nested recursion levels run); same rule",
+            strategy=deep_search_cases(), n_quick=320, n_thorough=8000, valid=valid_deep, floor=0.4),
         Leg("bc-search", evaluate, "hypothesis: bin_completion on planted 'hard' instances where its search is entered; same rule",
             strategy=bc_search_cases(), n_quick=300, n_thorough=6000, valid=valid, floor=0.4),
     ]
